@@ -585,7 +585,7 @@ Section MidTumor2.
     autorewrite with mlf in E6. change (b_contra (ml_ext m3)) with (ml_ec m3) in E6. rewrite Hec3 in E6.
     destruct (u_set_tumor_inv ec [] _ ec' r6 Hec E6) as (qE & _ & -> & _).
     injection Ht as <- <-. exists qI, qC, mix, qE.
-    rewrite skipn_skipn in Emix. unfold ml_ei, ml_ec, ml_nc in *. autorewrite with mlf.
+    rewrite skipn_skipn in Emix. subst ei ec nc. unfold ml_ei, ml_ec, ml_nc in *. autorewrite with mlf.
     repeat split; try assumption; try reflexivity.
     rewrite tl_skipn, skipn_skipn. f_equal. lia.
   Qed.
@@ -617,8 +617,9 @@ Section MidTumor2.
       destruct (u_set_tumor_spread_params ec x k) as [ec' [r6|]] eqn:E6 end; cbv beta iota zeta in Ht; [|discriminate].
     destruct (u_set_tumor_inv ec _ _ ec' r6 Hec E6) as (qE & HqE & -> & ->).
     injection Ht as <- <-. exists qI, qC, qE, nsplit, esplit, ng, eg.
-    rewrite skipn_skipn in HqE. unfold ml_ei, ml_ec, ml_nc in *. autorewrite with mlf.
+    rewrite skipn_skipn in HqE. subst ei ec nc. unfold ml_ei, ml_ec, ml_nc in *. autorewrite with mlf.
     repeat split; try assumption; try reflexivity.
+    all: match goal with |- ?G => idtac G end.
     rewrite !skipn_skipn. f_equal. lia.
   Qed.
 End MidTumor2.
